@@ -5,6 +5,8 @@ use std::io::{self, BufRead, Write};
 use std::panic::{catch_unwind, AssertUnwindSafe};
 
 mod sparseset;
+mod plevel;
+mod plevel_ext;
 
 pub fn parse_list(tok: &str) -> Vec<i32> {
     if tok == "-" || tok.is_empty() {
@@ -27,6 +29,10 @@ fn main() {
     std::panic::set_hook(Box::new(|_| {}));
     let f: fn(&str) -> String = match sub {
         "sparseset" => sparseset::run_case,
+        "prop" => plevel::run_prop,
+        "solve" => plevel::run_solve,
+        "ctx" => plevel::run_ctx,
+        "view" => plevel::run_view,
         _ => {
             eprintln!("unknown sub-command {}", sub);
             std::process::exit(2);
